@@ -6,6 +6,7 @@ import WebAuthnModel.Model.Origin
 import WebAuthnModel.Basic.Base64Url
 import WebAuthnModel.Spec.Cose
 import WebAuthnModel.Model.Ceremony
+import WebAuthnModel.Spec.History
 /-
   wadriver: line-protocol interpreter of the model.  One JSON object per input line, one JSON
   object per output line; while an op runs, `{"ask":…}` lines may be written and are answered by
@@ -244,12 +245,52 @@ def doAttest (j : Json) : Except String (Prog Json) := do
       | some res => pure (Json.mkObj [("decoded", true), ("ok", true), ("type", res.type), ("x5c", Json.arr (res.x5c.map hex).toArray), ("unmodelled", um)])
       | none => pure (Json.mkObj [("decoded", true), ("ok", false), ("unmodelled", um)])
 
+def parseHOp (j : Json) : Except String HOp := do
+  match ← getStr j "kind" with
+  | "register" =>
+    let o : CreationOptions := ⟨← getHex j "challenge", ← getHex j "userId", ← getIntList j "algs", ← getHexOpt j "authSelUV"⟩
+    let c : Attestation := ⟨← getHex j "rawId", ← getHex j "cdj", ← getHex j "attObj"⟩
+    return .register o c (← parseVerifyOpts j)
+  | _ =>
+    let o : RequestOptions := ⟨← getHex j "challenge", ← getHexList j "allow", ← getHex j "uv"⟩
+    let a : Assertion := ⟨← getHex j "rawId", ← getHex j "cdj", ← getHex j "authData", ← getHex j "sig", ← getHex j "userHandle"⟩
+    return .authenticate o a
+
+def hopId : HOp → Bytes
+  | .register _ c _ => c.rawId
+  | .authenticate _ a => a.rawId
+
+def houtJson : HOut → Json
+  | some c => credJson c
+  | none => Json.null
+
+/-- run model and reference machine side by side, step by step -/
+def historyLoop (rp : RP) : Store → Spec.State → List Bytes → List HOp → Prog (List Json)
+  | _, _, _, [] => pure []
+  | st, s, ids, op :: ops => do
+    let (mo, st') ← hstep rp st op
+    let (so, s') ← Spec.stepP rp s op
+    let ids := if ids.contains (hopId op) then ids else hopId op :: ids
+    let specState := Json.arr ((ids.filterMap (fun id => (s' id).map (fun b => credJson ⟨id, b.1, b.2⟩))).toArray)
+    let here := Json.mkObj [("model", houtJson mo), ("spec", houtJson so), ("modelStore", storeJson st'), ("specState", specState)]
+    let rest ← historyLoop rp st' s' ids ops
+    pure (here :: rest)
+
+def doHistory (j : Json) : Except String (Prog Json) := do
+  let origin ← getHex j "origin"
+  let ops ← (← getArr j "ops").toList.mapM parseHOp
+  return do
+    let rp ← newRP origin
+    let steps ← historyLoop rp [] Spec.State.empty [] ops
+    pure (Json.mkObj [("steps", Json.arr steps.toArray)])
+
 /-- ops that may ask oracle questions -/
 def handleProg (op : String) (j : Json) : Except String (Option (Prog Json)) := do
   match op with
   | "authenticate" => return some (← doAuthenticate j)
   | "register" => return some (← doRegister j)
   | "attest" => return some (← doAttest j)
+  | "history" => return some (← doHistory j)
   | "config" =>
     let opts ← parseVerifyOpts j
     let cfg := getVerifyConfig opts
